@@ -10,7 +10,7 @@ restart chaining - an off-by-one in an offset formula is NOT caught by this chec
 import re
 
 from verif import core
-from verif.tree import walk, walk_fn, show, stmt_list, meth, strip, simp
+from verif.tree import walk, walk_fn, show, stmt_list, meth, strip, simp, children
 
 LEVEL = "other"
 UNITS = ["opm/io/eclipse/OutputStream.cpp", "opm/output/eclipse/Summary.cpp", "opm/io/eclipse/ExtSmryOutput.cpp",
@@ -319,5 +319,103 @@ def run(chk):
             if k == "Try":
                 visit(n["body"], loops)
         visit(f["body"], [])
+
+    # ---- C10.reqindex: an index list into the request vector holds iteration ordinals
+    r_ri = chk.rule("C10.reqindex", "where a summary reader hands a callee both a request vector P and an index list L that the callee uses as P[L[n]], every value the caller appends to L inside its loop over P is the ordinal of the current iteration: a zero-initialised counter, appended without side effect and incremented exactly once, unconditionally, per iteration", floor=1)
+
+    def sub2(n):
+        if n["k"] == "Idx":
+            return n["c"][0], n["c"][1]
+        if n["k"] == "OpCall" and n.get("op") == "[]" and len(n.get("a") or []) == 2:
+            return n["a"][0], n["a"][1]
+        return None
+    byq = {}
+    for f in fx.fns:
+        byq.setdefault(f["q"], []).append(f)
+    for f in fx.fns:
+        if not f.get("body") or not f["file"].endswith(("ESmry.cpp", "ExtESmry.cpp")):
+            continue
+        seen_pairs = set()
+        for c in walk(f["body"]):
+            if c["k"] not in ("MCall", "Call") or not c.get("fn") or len(byq.get(c["fn"], [])) != 1:
+                continue
+            g = byq[c["fn"]][0]
+            if not g.get("body") or len(g.get("params") or []) != len(c.get("a") or []):
+                continue
+            pn = [p_["n"] for p_ in g["params"]]
+            for x in walk(g["body"]):
+                s1 = sub2(x)
+                if not s1:
+                    continue
+                b1, i1 = strip(s1[0]), strip(s1[1])
+                s2 = sub2(i1) if isinstance(i1, dict) else None
+                if not s2 or b1["k"] != "Ref" or b1.get("d") != "Parm" or strip(s2[0])["k"] != "Ref" or strip(s2[0]).get("d") != "Parm":
+                    continue
+                if b1["n"] not in pn or strip(s2[0])["n"] not in pn:
+                    continue
+                aP, aL = strip(c["a"][pn.index(b1["n"])]), strip(c["a"][pn.index(strip(s2[0])["n"])])
+                if aP["k"] != "Ref" or aL["k"] != "Ref" or aL.get("d") != "Var":
+                    continue
+                seen_pairs.add((aP["n"], aL["n"], g["q"], b1["n"], strip(s2[0])["n"]))
+        for P, L, gq, gp, gl in sorted(seen_pairs):
+            key = "%s:%s[%s[.]]" % (f["q"].split("::")[-1], P, L)
+            # every append to L in f
+            appends = []
+
+            def scan(n, loops, conds):
+                k = n["k"]
+                m_, o_ = meth(n)
+                if m_ in ("push_back", "emplace_back") and o_ is not None and strip(o_)["k"] == "Ref" and strip(o_)["n"] == L:
+                    appends.append((n, list(loops), list(conds)))
+                if k in ("While", "For", "Do", "ForRange"):
+                    for key_ in ("init", "cond", "inc", "range"):
+                        if isinstance(n.get(key_), dict):
+                            scan(n[key_], loops + [n], conds)
+                    scan(n["body"], loops + [n], [])
+                    return
+                if k == "If":
+                    if isinstance(n.get("cond"), dict):
+                        scan(n["cond"], loops, conds)
+                    scan(n["then"], loops, conds + [n])
+                    if n.get("else"):
+                        scan(n["else"], loops, conds + [n])
+                    return
+                for ch in children(n):
+                    scan(ch, loops, conds)
+            scan(f["body"], [], [])
+            chk.instance(r_ri, key, sample=dict(function=f["q"], request=P, index_list=L, callee=gq, callee_use="%s[%s[n]]" % (gp, gl), appends=[a[0]["l"] for a in appends]))
+            if not appends:
+                chk.violation(r_ri, key, "%s passes %s to %s as positions in %s but never appends to it" % (f["q"], L, gq, P), f["file"], f["l"])
+            for a, loops, conds in appends:
+                if not loops:
+                    raise core.AnalysisBroken("C10.reqindex: %s:%d appends to %s outside a loop (unknown idiom)" % (f["file"], a["l"], L))
+                lp = loops[-1]
+                arg = strip((a.get("a") or [None])[0])
+                if lp["k"] == "ForRange" and strip(lp["range"])["k"] == "Ref" and strip(lp["range"])["n"] == P:
+                    if arg is None or arg["k"] != "Ref" or arg.get("d") != "Var":
+                        chk.violation(r_ri, key, "%s: the value appended to %s is `%s`, not a plain iteration counter: %s uses %s[%s[n]] to name the vector whose data it stores, so a position that is not the ordinal of the current request entry attaches data to the wrong key" % (f["q"], L, show(a["a"][0]) if a.get("a") else "?", gq, gp, gl), f["file"], a["l"])
+                        continue
+                    v = arg["n"]
+                    decl = [d for n_ in walk(f["body"]) if n_["k"] == "Decl" for d in n_["vars"] if d["n"] == v]
+                    inside = [d for n_ in walk(lp["body"]) if n_["k"] == "Decl" for d in n_["vars"] if d["n"] == v]
+                    init0 = len(decl) == 1 and not inside and decl[0].get("init") is not None and strip(decl[0]["init"]).get("k") == "Int" and strip(decl[0]["init"]).get("v") == 0
+                    tops = stmt_list(lp["body"])
+                    top_inc = [s_ for s_ in tops if is_inc(s_) == v]
+                    all_mod = [n_ for n_ in walk(lp["body"]) if (n_["k"] == "Un" and "+" in (n_.get("op") or "") + "-" and ("++" in (n_.get("op") or "") or "--" in (n_.get("op") or "")) and strip(n_["c"][0]).get("n") == v)
+                               or (n_["k"] == "Bin" and n_.get("asg") and strip(n_["c"][0]).get("k") == "Ref" and strip(n_["c"][0]).get("n") == v)]
+                    jumps = [n_ for n_ in walk(lp["body"], skip_lambda=True) if n_["k"] in ("Continue", "Break", "Return")]
+                    bad = []
+                    if not init0:
+                        bad.append("it is not a local initialised to 0 before the loop")
+                    if len(top_inc) != 1 or len(all_mod) != 1:
+                        bad.append("it is modified %d time(s) in the loop body, %d of them as an unconditional statement of the body (an ordinal needs exactly one unconditional increment)" % (len(all_mod), len(top_inc)))
+                    if jumps:
+                        bad.append("the body leaves an iteration early at line %s" % ", ".join(str(j["l"]) for j in jumps))
+                    if bad:
+                        chk.violation(r_ri, key, "%s: `%s` is appended to %s as the position of the current entry of %s (%s reads %s[%s[n]]), but %s; once an entry is skipped, every later position is off and the data read for one vector is stored under another" % (f["q"], v, L, P, gq, gp, gl, "; ".join(bad)), f["file"], a["l"])
+                elif lp["k"] == "For":
+                    raise core.AnalysisBroken("C10.reqindex: %s:%d index list %s filled in an index-for loop (idiom not modelled)" % (f["file"], a["l"], L))
+                else:
+                    raise core.AnalysisBroken("C10.reqindex: %s:%d index list %s filled in a loop that does not range over %s" % (f["file"], a["l"], L, P))
 
     chk.assumptions += ["the positional seek arithmetic of ESmry::loadData / ExtESmry is not analysed (runtime quantities)"]
